@@ -150,6 +150,10 @@ fn backend<B: Backend>(opts: &Opts, rep: &mut Report) {
                     let mid = body.len() - if kind.is_pw() { if B::VER % 2 == 1 { 48 } else { 32 } } else { 0 };
                     expect_err::<B>(rep, kind, "extend-key", &join_paserk(&hdr, &[&body[..mid], &vec![0u8; ext][..], &body[mid..]].concat()), &s, &key_raw);
                 }
+                // 2b. text level: anything after the data segment
+                for extra in [".", ".x", ".AAAA", "..", &format!(".{}", crate::b64::encode(&body)), &format!(".{blob}"), "\n", " "] {
+                    expect_err::<B>(rep, kind, "extra-segment", &format!("{blob}{extra}"), &s, &key_raw);
+                }
                 // 3. header relabel inside the backend: every other kind's header over the same body
                 for &k2 in WKS {
                     if k2 != kind {
@@ -308,7 +312,7 @@ pub fn run(opts: &Opts) {
     pairs!(V1 => V3Lc, V3Lc => V1, V2 => V4Na, V4Na => V2, V3Lc => V4Na, V4Na => V3Lc, V3 => V4Na, V4 => V3Lc, V3Lc => V4, V4Na => V3, V3Lc => V2, V4Na => V1);
     rep.set(
         "rule",
-        json!("fault enumeration per wrapped/sealed blob (plus secrets one byte away from the right one tried right after the right one opened the blob; plus, for password wraps, a family of ~30 look-alike passwords - trailing/leading whitespace of every kind, case, doubled spaces, NFC/NFD, truncation, repetition - wrapped with one member and unwrapped with every other): every single-bit flip of every byte (tag, nonce, salt, parameters, ephemeral key / RSA ciphertext, encrypted key), truncation to every length, extensions, every other kind's header over the same body (same backend and every other version with the same wrapping key / password / where formats coincide the same recipient key), wrong wrapping key (random, one bit), wrong password (prefix, one char, empty, NUL suffix, case), other recipient; non-trivial = differs from the produced blob/secret; KDF costs beyond 64 MiB / 3 passes / 200k iterations are skipped and counted"),
+        json!("fault enumeration per wrapped/sealed blob (plus secrets one byte away from the right one tried right after the right one opened the blob; plus, for password wraps, a family of ~30 look-alike passwords - trailing/leading whitespace of every kind, case, doubled spaces, NFC/NFD, truncation, repetition - wrapped with one member and unwrapped with every other): every single-bit flip of every byte (tag, nonce, salt, parameters, ephemeral key / RSA ciphertext, encrypted key), truncation to every length, extensions, further dot-separated segments and trailing characters after the data, every other kind's header over the same body (same backend and every other version with the same wrapping key / password / where formats coincide the same recipient key), wrong wrapping key (random, one bit), wrong password (prefix, one char, empty, NUL suffix, case), other recipient; non-trivial = differs from the produced blob/secret; KDF costs beyond 64 MiB / 3 passes / 200k iterations are skipped and counted"),
     );
     rep.finish(opts);
 }
